@@ -161,6 +161,15 @@ class Runner:
             p.assume(z3.Length(sv.t) <= MAXLEN)
             eng.js_seqs.append(sv.t)
             return sv
+        if n == "ValList":
+            r = z3.Int(name + "_ref")
+            p.assume(r >= 0)
+            p.assume(r < p.alloc0)
+            t = z3.Const(name + "_items", ValSeq)
+            p.assume(z3.Length(t) <= MAXLEN)
+            p.hwrite("list.items", r, t)
+            eng.list_elem_js.append(r)
+            return s_ref("list", r)
         if n == "Obj":
             r = z3.Int(name + "_ref")
             p.assume(r >= 0)
@@ -280,6 +289,7 @@ class Runner:
         eng.depth = 0
         eng.ghost = {}
         eng.js_seqs = []
+        eng.list_elem_js = []
         prim = getattr(c, "prim_args", True)
         eng.seq_elem_fact = (lambda v: z3.And(M.is_js_value(v), z3.Not(Val.is_VRef(v)))) if prim else (lambda v: M.is_js_value(v))
         eng.func_objects = {}
@@ -325,6 +335,7 @@ class Runner:
             pr.status, pr.detail = "error", f"z3: {e} " + "".join(traceback.format_tb(e.__traceback__)[-4:])
         except Exception as e:      # noqa   engine bug: never a verdict
             pr.status, pr.detail = "error", "".join(traceback.format_exception(type(e), e, e.__traceback__)[-3:])
+        pr.notes = list(p.notes)
         pr.decisions = list(p.decisions)
         pr._pending = p.pending
         pr.n_pc = len(p.pc)
@@ -588,6 +599,10 @@ class Runner:
         elif cn == "VM":
             from microjs.vm import VM
             o = VM()
+        elif cn == "CallFrame":
+            from microjs.vm import CallFrame
+            from microjs.compiler import CompiledFunction
+            o = CallFrame(func=CompiledFunction("f", [], b"", [], [], 0), ip=0, bp=0, locals=[], this_value=V.UNDEFINED)
         elif cn == "Context":
             from microjs.context import Context
             o = Context()
